@@ -3,7 +3,7 @@
     [den] (a query tree; Model/Query.v's [eval] is its reference semantics).  Model/Parser.v: the parser.
     External engines are universally quantified ([rq] regexp classification, [rx_auto], [rcompile], [lang]). *)
 From ZV Require Import Lib.Base Model.Query Generated.ParserTables Model.Parser Model.QueryDoc Model.QueryDocRun.
-From ZV Require Import Proofs.QueryDocTree Proofs.QueryDocParse Proofs.QuerySimplify Proofs.QueryDocSem.
+From ZV Require Import Proofs.QueryDocTree Proofs.QueryDocParse Proofs.QuerySimplify Proofs.QueryDocSem Proofs.C06Main.
 From Coq Require Import String.
 Open Scope N_scope.
 
@@ -20,9 +20,7 @@ Theorem C06_parse_render :
   forall (rq : str -> rqres) (rx_auto rcompile : str -> bool) (lang : str -> option str) (q : dquery),
     wf_query rq rcompile q = true ->
     parse rq rx_auto rcompile lang (render q) = Ok (Simplify (den (rq_d rq) rx_auto lang q)).
-Proof.
-  intros. rewrite Proofs.QueryDocParse.parse_render_iquery by assumption. apply iquery_den. assumption.
-Qed.
+Proof. exact parse_render_full. Qed.
 Print Assumptions C06_parse_render.
 
 (** THE PROPERTY AS STATED ("selects the same documents"): the parsed query, evaluated with ANY atom
@@ -37,12 +35,7 @@ Theorem C06_selects_documented_documents :
     exists t, parse rq rx_auto rcompile lang (render q) = Ok t /\
       forall (D : Type) (env : atoms D) (d : D), atoms_ok env ->
         eval env t d = Proofs.QueryDocSem.sat_query (rq_d rq) rx_auto lang D env d q.
-Proof.
-  intros rq rx_auto rcompile lang q Hwf. eexists. split; [apply C06_parse_render; exact Hwf|].
-  intros D env d Hok. rewrite Proofs.QuerySimplify.Simplify_preserves by exact Hok.
-  change (den (rq_d rq) rx_auto lang q) with (den_expr (rq_d rq) rx_auto lang CAuto (DGroup q)).
-  apply Proofs.QueryDocSem.den_sat.
-Qed.
+Proof. exact selects_documented_documents. Qed.
 Print Assumptions C06_selects_documented_documents.
 
 (** its two halves: the byte level (tokens, quoting/escapes, parenthesis and "or" recognition) ... *)
@@ -83,14 +76,11 @@ Theorem C06_case_auto_iff_upper :
   forall (rx_auto : str -> bool) (k : cflavor) (p : str) (cs f c : bool),
     setCase rx_auto (flavor_text k) (QSubstring p cs f c) =
     QSubstring p (match k with CYes => true | CNo => false | CAuto => existsb is_upper p end) f c.
-Proof. intros. rewrite (setCase_lit rx_auto k). destruct k; reflexivity. Qed.
+Proof. exact case_auto_iff_upper. Qed.
 Print Assumptions C06_case_auto_iff_upper.
 
 (** ---- where the implementation deviates from the document (known findings, not repaired) *)
-Definition lit_rq (t : str) : rqres := RQLit t.
-Definition ex_parse (s : str) : outcome Q := parse lit_rq (fun _ => false) (fun _ => true) (fun _ => None) s.
-Definition ex_den (q : dquery) : Q := den (rq_d lit_rq) (fun _ => false) (fun _ => None) q.
-Definition ex_wf (q : dquery) : bool := wf_query lit_rq (fun _ => true) q.
+(** [lit_rq] [ex_parse] [ex_den] [ex_wf]: concrete engines (every text a literal) - Proofs/C06Main.v *)
 
 (** grouping = "(" query ")" in the document, but "(f:x)" - a group without a blank inside - is one regexp
     token for nextToken: the documented query "(f:x) y" does not restrict file names *)
@@ -98,19 +88,14 @@ Theorem C06_compact_group_refuted :
   exists q : dquery, ex_wf q = true /\
     ex_parse (render q) = Ok (Simplify (ex_den q)) /\          (* printed "( f:x) y": as documented *)
     ex_parse (render_compact q) <> Ok (Simplify (ex_den q)).   (* printed "(f:x) y": not *)
-Proof.
-  exists [[DGroup [[DField FFile true (WPlain (dbs "x"))]]; DText (WPlain (dbs "y"))]].
-  split; [vm_compute; reflexivity|]. split; [vm_compute; reflexivity|]. vm_compute. discriminate.
-Qed.
+Proof. exact compact_group_refuted. Qed.
 Print Assumptions C06_compact_group_refuted.
 
 (** "regex: - Matches content using a regular expression", but regex:a is parsed exactly like the bare
     pattern a (content OR file name) *)
 Theorem C06_regex_field_refuted :
   exists q : dquery, ex_parse (render q) = ex_parse (dbs "a") /\ ex_parse (render q) <> Ok (Simplify (ex_den q)).
-Proof.
-  exists [[DField FRegex false (WPlain (dbs "a"))]]. split; [vm_compute; reflexivity | vm_compute; discriminate].
-Qed.
+Proof. exact regex_field_refuted. Qed.
 Print Assumptions C06_regex_field_refuted.
 
 (** ---- non-vacuity: well-formed queries exist, and on them the full statement holds by computation *)
@@ -138,20 +123,7 @@ Proof. repeat split; vm_compute; reflexivity. Qed.
 
 (** a toy atom semantics (documents = byte strings, literals match by case-sensitive containment) for which
     the document-level theorem is exercised: "a -b" selects "xa" and not "ab" *)
-Definition toy : atoms str :=
-  {| a_substr := fun p _ nm d => negb nm && (if index_sub p d then true else false) || is_nil p;
-     a_regexp := fun re _ _ _ => N.eqb (rx_op re) OpEmptyMatch;
-     a_symbol := fun _ _ => false; a_case := fun _ _ => false; a_lang := fun _ _ => false;
-     a_filename := fun _ _ => false; a_branch := fun p _ _ => is_nil p; a_onbranch := fun _ _ => false;
-     a_repo_re := fun _ _ => false; a_repo_name := fun _ _ => false; a_repo_id := fun _ _ => false;
-     a_repo_meta := fun _ _ _ => false; a_repo_rc := fun _ => 0 |}.
-Lemma toy_ok : atoms_ok toy.
-Proof.
-  constructor; intros; simpl.
-  - apply orb_true_r.
-  - apply N.eqb_eq. assumption.
-  - reflexivity.
-Qed.
+(** [toy] and [toy_ok]: Proofs/C06Main.v *)
 Definition ex_q3 : dquery := [[DText (WPlain (dbs "a")); DNeg (DText (WPlain (dbs "b")))]].
 Example ex_q3_docs : ex_wf ex_q3 = true /\
   Proofs.QueryDocSem.sat_query (rq_d lit_rq) (fun _ => false) (fun _ => None) str toy (dbs "xa") ex_q3 = true /\
